@@ -34,6 +34,26 @@ CLAIMS = {
   note=TB + "Carrier choice (generateEnumType) is modelled and tied by the go/ast summary, not proved. Known findings: K18 (untyped enum via $ref unenforced), colliding constants, integer coercion, typed integer enum under --min-sized-ints rejects everything. null at a non-nullable typed enum follows the null convention of DESIGN §1.3.",
   technique="Lean 4 theorems about the emitted DeepEqual loop per carrier + sampled program-level correspondence over all enum shapes",
   ref="§3 C08"),
+ "C04": dict(
+  text="Theorems: (run-time, any generated program) if along the paths the decoder follows - pointers, arrays, maps, struct fields bound by rule G7, named types with or without their own emitted method - an object lacks a key whose declaration carries a required validator, the document is not accepted, for every fuel and depth (rejects_missing, via Proofs.fails_not_accepted); (certificate) a decidable certificate certReq relates schema and declarations, and for every certified program every document with a required, declared, default-less key missing at any position reached through properties, items and $ref is rejected (cert_rejects_missing). The driver evaluates the certificate on every generated program. Tie: systematic (all non-empty subsets of required keys at root/nested/element/definition/deep positions, present-null, optional-absent) and random programs with every single deletion at every object position, compiled and run, verdict = reference.",
+  note=TB + "The step 'the generator's output is certified' is evaluated per generated program (sampled over schemas), not yet proved for all schemas. Scope F04 excludes composition (C11) and the known-finding classes K7 (undeclared / property-less required) and K20 (declared array types).",
+  technique="Lean 4: one structural induction over the run-time model (all documents, all depths) + a proved decidable schema-to-declarations certificate; sampled program-level correspondence with systematic deletions",
+  ref="§3 C04"),
+ "C03": dict(
+  text="Theorems: (run-time) a primitive Go type cannot hold a non-null JSON value of another type, a slice only arrays, a struct or map only objects, an enum type only what its carrier holds, and such a local mismatch makes the whole decoding fail through pointers, arrays, maps, fields and named types (Proofs.fails_not_accepted, top_mismatch); a non-integral number is not an integer (fraction_into_int_fails); null into a pointer yields nil (null_into_pointer); (certificate) for every program certified by certType, every document with a non-null value of another JSON type at ANY typed position reached through properties, items and $ref is rejected (cert_rejects_wrong_type). Tie: random programs; at every typed position a value of every other JSON type, and null where allowed, is substituted into a valid document; compiled, run, verdict = reference.",
+  note=TB + "Certification of the generator's output is evaluated per generated program (sampled over schemas). Known findings: typed additionalProperties go through mapstructure (1.5 -> 1), two-type lists are interface{}, alias definitions are interface{} (K18).",
+  technique="Lean 4: structural induction over the run-time model + proved decidable certificate; sampled program-level correspondence with systematic type substitutions",
+  ref="§3 C03"),
+ "C02": dict(
+  text="Theorems (run-time level): decode followed by marshal is the identity on strings, booleans, numbers and in-range integers (prim_roundtrip: no truncation, coercion or precision loss); the after-validators reject only when one of their stated checks fails (validators_only_reject_on_constraints); a value all stated bounds admit passes the numeric check, an admitted ASCII string the string check, an admitted length the array check (bounds normalisation does not over-constrain; from C05/C06/C07). Tie: random programs (tree fragment + formats) with schema-directed valid documents: every document the reference calls valid must be accepted by the freshly compiled code and every non-empty declared value must re-appear unchanged at the same place in json.Marshal of the decoded value; a broad all-features stream with mutated documents ties model and implementation on verdict AND value.",
+  note=TB + "Partial: the whole-document statement 'every valid document is accepted' is carried by the correspondence plus the per-validator theorems; a generator-level induction is future work. Known findings: additionalProperties:true collects nothing, named format definitions, integer lexemes (1.0), byte lengths (C06).",
+  technique="Lean 4 run-time lemmas (round trip, no over-constraining) + sampled program-level correspondence on valid documents with a value-preservation oracle",
+  ref="§3 C02"),
+ "C09": dict(
+  text="Theorems (meaning of the emitted default statement, any program): if the raw map lacks the key, or holds null, the field is set to the value of the default literal and the remaining validators run on the updated value (absent_gets_default, null_gets_default); a present non-null value is never overwritten (present_wins); for scalar fields the literal is accepted exactly when it has the field's type and evaluates to the default's JSON value, and an ill-typed literal is refused (literal_value_typed). Tie: programs with scalar, enum-carrier and primitive-array defaults x documents with the property absent / null / present: decoded field read back from json.Marshal must equal default resp. document value; random schemas with defaults tie model and implementation including the compile verdict.",
+  note=TB + "Known findings (ill-typed literals that do not compile: nullable, format, object defaults; null at an enum-typed defaulted property is rejected). Empty values are not observable through json.Marshal (omitempty) and are skipped.",
+  technique="Lean 4 lemmas about the emitted default statement + sampled program-level correspondence",
+  ref="§3 C09"),
 }
 NA_PENDING = "check not built yet in this session (work in progress; see DESIGN.md §7)"
 ids = [json.loads(l)["id"] for l in open('/verif/properties.jsonl')]
